@@ -26,7 +26,10 @@ UNSUPPORTED = ["textDocument/hover", "textDocument/references", "workspace/symbo
                "$/unknownRequest", "textDocument/codeAction", "textDocument/rename", "gold/custom"]
 NOTES = ["textDocument/didChange", "textDocument/didSave", "textDocument/didOpen", "textDocument/didClose"]
 OTHER_NOTES = ["$/cancelRequest", "workspace/didChangeConfiguration", "$/setTrace", "textDocument/willSave"]
-OTHER_URIS = ["untitled:Untitled-1", "http://example.org/a.god", "file://otherhost/x/a.god", "gold:scratch"]
+OTHER_URIS = ["untitled:Untitled-1", "http://example.org/a.god", "file://otherhost/x/a.god", "gold:scratch",
+              # files OUTSIDE the workspace: paths shorter than the root's, with multi-byte characters, the file system root
+              "file:///a.god", "file:///x", "file:///", "file:///%C3%A9%C3%A9%C3%A9%C3%A9%C3%A9%C3%A9%C3%A9%C3%A9/%E6%BC%A2.god", "file:///tmp/a.god",
+              "urn:isbn:0451450523", "file:///work/%F0%9F%99%82/aRoot.god"]
 
 CLASSES = ["aRoot", "aSecond", "aThird", "aFourth", "wUtil"]
 
